@@ -224,6 +224,9 @@ impl<'b, 'a> Parser<'a, 'b> {
             return false;
         }
 
+        // the new tokens replace the current one: any trivia in front of it
+        // goes to the sink first.
+        self.eat_trivia();
         let mut prev_end = 0;
         for (range, kind) in buf.drain(..) {
             assert_eq!(range.start, prev_end, "split cannot have gaps");
